@@ -1643,6 +1643,55 @@ def c08(case):
 
 
 # ---------------------------------------------------------------------------
+# clean-up of the ends of a description block (CleanUp.tla)
+
+CLEAN_WORD = "QXJVZK"
+_CLEAN_TEXT = {"SP": " ", "NL": "\n", "W": CLEAN_WORD}
+
+
+def clean_render(atoms, rng_case=0):
+    out = []
+    for i, a in enumerate(atoms):
+        t = _CLEAN_TEXT.get(a, a)
+        if a in ("the", "of", "in", "and", "all") and (i + rng_case) % 3 == 0:
+            t = t.upper() if (i + rng_case) % 2 else t.capitalize()
+        out.append(t)
+    return "".join(out)
+
+
+def clean_lex(text):
+    out, i = [], 0
+    low = text.lower()
+    while i < len(text):
+        if text.startswith(CLEAN_WORD, i):
+            out.append("W")
+            i += len(CLEAN_WORD)
+            continue
+        for w in ("the", "and", "all", "of", "in"):
+            if low.startswith(w, i):
+                out.append(w)
+                i += len(w)
+                break
+        else:
+            c = text[i]
+            out.append("SP" if c == " " else "NL" if c == "\n" else c if c in ".,;:-" else "?")
+            i += 1
+    return out
+
+
+def cleanup_block(case):
+    import pytrs
+    a = case["args"]
+    try:
+        d = pytrs.PLSSDesc("T154N-R97W Sec 14:" + a["text"])
+        if len(d.tracts) != 1:
+            return {"exc": "none", "obs": ["?"], "raw": [(t.trs, t.desc) for t in d.tracts][:3]}
+        return {"exc": "none", "obs": clean_lex(d.tracts[0].desc), "raw": d.tracts[0].desc}
+    except Exception as e:  # noqa
+        return _exc(e)
+
+
+# ---------------------------------------------------------------------------
 # preprocessing of whole descriptions (Preprocess.tla)
 
 _PP_PM = "of the 5th P.M."
